@@ -1,6 +1,6 @@
 (* C02 — no double spend or double resolution. *)
 From Coq Require Import ZArith List Bool.
-From Sia Require Import Prim.Result Prim.Tok Policy.Model Ledger.Types Ledger.Mid Ledger.Validate Ledger.Apply Ledger.Proofs Ledger.Spends.
+From Sia Require Import Prim.Result Prim.Tok Policy.Model Ledger.Types Ledger.Mid Ledger.Validate Ledger.Apply Ledger.Proofs Ledger.Spends Ledger.SpendsV1.
 Import ListNotations.
 Open Scope Z_scope.
 
@@ -47,3 +47,20 @@ Theorem C02_block_no_double_spend : forall H net vt pt se sd s b, validate_block
   NoDup (flat_map sci_ids (b_v2txns b)) /\ NoDup (flat_map sfi_ids (b_v2txns b)) /\ NoDup (flat_map res_ids (b_v2txns b)).
 Proof. exact v2_block_no_double_spend. Qed.
 Print Assumptions C02_block_no_double_spend.
+
+(* v1 transactions in the same block: validation refuses entered and repeated inputs, applying enters them *)
+Theorem C02_v1_validate_refuses_consumed : forall H net vt se sd s m t ts, validate_txn1 H net vt se sd s m t ts = Ok tt ->
+  Forall (fun i => is_spent m i = false) (v1_sci_ids t) /\ NoDup (v1_sci_ids t).
+Proof. exact validate_txn1_fresh. Qed.
+Print Assumptions C02_v1_validate_refuses_consumed.
+
+Theorem C02_v1_apply_enters_consumed : forall net s m t ts m', apply_txn1 net s m t ts = Ok m' ->
+  ext m m' /\ Forall (fun i => is_spent m' i = true) (v1_sci_ids t).
+Proof. exact apply_txn1_spends. Qed.
+Print Assumptions C02_v1_apply_enters_consumed.
+
+(* a block that mixes v1 and v2 transactions spends no siacoin element twice, whichever kind of transaction uses it *)
+Theorem C02_mixed_block_no_double_spend : forall H net vt pt se sd s b, validate_block H net vt pt se sd s b = Ok tt ->
+  NoDup (flat_map v1_sci_ids (b_txns b) ++ flat_map sci_ids (b_v2txns b)).
+Proof. exact mixed_block_no_double_spend. Qed.
+Print Assumptions C02_mixed_block_no_double_spend.
